@@ -10,7 +10,7 @@ TB_COMMON = [
 PROPS = {}
 
 PROPS["C17"] = {
-    "modules": ["Platypus.Properties.C17", "Platypus.Properties.C17Chain", "Platypus.Properties.C17Tree"],
+    "modules": ["Platypus.Properties.C17", "Platypus.Properties.C17Chain", "Platypus.Properties.C17Tree", "Platypus.Properties.C17Sorted"],
     "theorems": None,
     "rule": "lookup: every text over {a, newline, e-acute} up to length 6 (quick) / 8 (thorough) x every offset -2..len+2, plus random byte strings (invalid UTF-8, CR, NUL) x boundary and random offsets; "
             "tree positions: generated statement trees (every expression and statement form) x 4 layout families: on the real parser's tree every stored position must carry the line/column of its offset and the source must spell that node's token there "
@@ -28,7 +28,7 @@ PROPS["C17"] = {
     "technique": "Lean 4 theorems (both lookup routines = declarative line/column specification for all texts and offsets; error-chain store: an append reaches only its own handle, copies are independent, rendering shape; position-carrying parser: it accepts exactly what the parser model accepts and builds the same trees (parse_eq_erase), every stored position is the offset of an input token of the expected kind (positions_are_token_offsets), attribute expressions start at their object, stored positions respect source order) + differential correspondence with token.go, errchain and the real parser's stored positions + executable position specifications on injected faults",
     "level_text": "Kernel-checked: the models of PosCache.LnCol (binary search) and LnCol (linear scan) equal the declarative line/column specification for every byte string and integer offset; in the error-chain store model an append changes exactly one error and a copy shares nothing. "
                   "Tied to token.go and errchain by exhaustive texts/operation sequences on every check. The position-carrying parser model stores, for every node, the byte offsets of exactly the tokens the property names (kernel-checked for all token lists); it is tied to parser.go by comparing all stored positions on generated trees x layouts. Error positions are decided per generated input on the implementation's own output.",
-    "level_note": "Partial for error positions: decided on generated inputs. The source-order theorems assume strictly increasing token offsets (true of the lexer's items; proved for the example, exercised by correspondence). Block brace positions are not dumped and not modelled. Trusted: Lean kernel; the hand-written models' fidelity is checked by correspondence.",
+    "level_note": "Partial for error positions: decided on generated inputs. The source-order theorems hold for every source text: lexAll_sorted (from the coverage theorem of C05) discharges the sortedness hypothesis. Block brace positions are not dumped and not modelled. Trusted: Lean kernel; the hand-written models' fidelity is checked by correspondence.",
 }
 
 
